@@ -25,6 +25,7 @@ CONSTANTS
   MaxBehind <- TraceMaxBehind
   Catchup <- TraceCatchup
   Granular = TRUE
+  WaitMs <- TraceWaitMs
 INVARIANT SysReport
 POSTCONDITION SysAccepted
 CHECK_DEADLOCK FALSE
